@@ -670,7 +670,8 @@ def to_matched_score(
     ms = []
     # sort according to onset (primary) and pitch (secondary)
     pitch_onset = [(sn["pitch"].item(), sn["onset_div"].item()) for sn, _ in note_pairs]
-    sort_order = np.lexsort(list(zip(*pitch_onset)))
+    # (an alignment may hold no match at all: the table is then empty)
+    sort_order = np.lexsort(list(zip(*pitch_onset))) if note_pairs else []
     snote_ids = []
     for i in sort_order:
         sn, n = note_pairs[int(i)]
@@ -699,8 +700,8 @@ def to_matched_score(
     if include_score_markings and not isinstance(score, np.ndarray):
         fields += [("voice", "i4")]
         fields += [
-            (field, sn.dtype.fields[field][0])
-            for field in sn.dtype.fields
+            (field, na.dtype.fields[field][0])
+            for field in na.dtype.fields
             if "feature" in field
         ]
 
